@@ -1,0 +1,50 @@
+//go:build verif
+
+// Package simhook marks the points where a deterministic simulator may take
+// control of goroutine scheduling.  With the build tag "verif" the functions
+// forward to function variables that are nil unless a simulator installed
+// itself, so even the tagged build behaves like the untagged one by default.
+package simhook
+
+var (
+	YieldFn   func(point string)
+	WaitFn    func(ch <-chan struct{}, point string)
+	SpawnFn   func(key interface{})
+	GoStartFn func(key interface{})
+	GoEndFn   func()
+)
+
+// Yield marks a point between two critical sections.
+func Yield(point string) {
+	if f := YieldFn; f != nil {
+		f(point)
+	}
+}
+
+// Wait marks a blocking receive on a close-only channel.
+func Wait(ch <-chan struct{}, point string) {
+	if f := WaitFn; f != nil {
+		f(ch, point)
+	}
+}
+
+// Spawn announces that a goroutine identified by key is about to be started.
+func Spawn(key interface{}) {
+	if f := SpawnFn; f != nil {
+		f(key)
+	}
+}
+
+// GoStart is the first call of a goroutine announced with Spawn.
+func GoStart(key interface{}) {
+	if f := GoStartFn; f != nil {
+		f(key)
+	}
+}
+
+// GoEnd is the last call of a goroutine announced with Spawn.
+func GoEnd() {
+	if f := GoEndFn; f != nil {
+		f()
+	}
+}
